@@ -21,7 +21,16 @@ FROZEN = 1 << 40
 PARAM_DEFAULTS = {'client_encoding': b'UTF8', 'DateStyle': b'ISO, MDY', 'TimeZone': b'Etc/UTC', 'standard_conforming_strings': b'on',
                   'application_name': b'pgcat'}
 PARAM_CANON = {k.lower(): k for k in PARAM_DEFAULTS}
-SET_RX = re.compile(r"^SET\s+(?:SESSION\s+)?([A-Za-z_]+)\s*(?:TO|=)\s*(?:'((?:[^']|'')*)'|([^\s;']+))$", re.I)
+SET_RX = re.compile(r"^SET\s+(?:SESSION\s+)?([A-Za-z_]+)\s*(?:TO|=)\s*(?:'((?:[^']|'')*)'|([^\s;']+)|E'((?:[^'\\]|''|\\.)*)')$", re.I)
+
+
+def set_value(mm):
+    """The value a matched SET assigns: a plain literal ('' -> '), a bare word, or an E'' literal ('' -> ', backslash + c -> c)."""
+    if mm.group(2) is not None:
+        return mm.group(2).replace("''", "'")
+    if mm.group(3) is not None:
+        return mm.group(3)
+    return re.sub(r"\\(.)", r"\1", mm.group(4).replace("''", "'"), flags=re.S)
 
 
 # ----------------------------------------------------------------------------------------------- wire helpers
@@ -401,7 +410,7 @@ class MockPg:
                     self.dirty_set = True
                 if tracked:
                     key = PARAM_CANON[mm.group(1).lower()]
-                    val = (mm.group(2).replace("''", "'") if mm.group(2) is not None else mm.group(3)).encode('latin1')
+                    val = set_value(mm).encode('latin1')
                     self.params[key] = val
                     out.append(self.emit(req, 'S', key.encode() + b'\0' + val + b'\0'))
                 out.append(self.emit(req, 'C', b'SET\0'))
@@ -896,7 +905,7 @@ class HandleEnv:
 
 
 # ----------------------------------------------------------------------------------------------- the oracle
-POOLER_SQL = re.compile(rb'^(ROLLBACK|;|(RESET ROLE;)(RESET ALL;)?(DEALLOCATE ALL;)?|DISCARD ALL|(SET [A-Za-z_.]+ TO \'([^\']|\'\')*\';)+)$')
+POOLER_SQL = re.compile(rb'^(ROLLBACK|;|(RESET ROLE;)(RESET ALL;)?(DEALLOCATE ALL;)?|DISCARD ALL|(SET [A-Za-z_.]+ TO (\'([^\']|\'\')*\'|E\'([^\'\\\\]|\'\'|\\\\.)*\');)+)$')
 
 
 class Decider:
